@@ -79,6 +79,10 @@ class ELsb0(Engine):
                     p = g.int(0, ln - 4)
                     bits[p:p + 3] = list('101')
                 bits = ''.join(bits)
+            elif g.chance(0.15):
+                # a few repeated byte values, whole bytes: occurrences of a two-byte pattern overlap and there are several of them
+                b1, b2 = format(g.int(0, 255), '08b'), format(g.int(0, 255), '08b')
+                bits = ''.join(g.pick([b1, b1, b2]) for _ in range(g.int(3, 9)))
             else:
                 bits = g.bits(g.length(70))
             ents.append({'cls': cls, 'bits': bits})
@@ -230,6 +234,12 @@ class ELsb0(Engine):
             if op == 'replace':
                 ev['new'], ev['new_form'] = self._operand(g, n)
                 ev['count'] = g.pick([None, None, 0, 1, 2])
+                if n % 8 == 0 and n >= 24 and g.chance(0.5):
+                    # whole-byte data, old and new, byte-aligned, old taken from a byte boundary of the data
+                    p8 = 8 * g.int(0, n // 8 - 2)
+                    ev['bs'], ev['bs_form'] = xbits[p8:p8 + 8 * g.pick([1, 2, 2])], 'str'
+                    ev['new'], ev['new_form'] = g.bits(8 * g.pick([1, 1, 2, 3])), 'str'
+                    ev.update(start=None, end=None, bytealigned=g.pick([True, True, None]), count=g.pick([None, 1, 1, 2]))
         elif op in ('startswith', 'endswith'):
             if g.chance(0.6) and n:
                 ln = g.int(1, min(n, 12))
